@@ -700,7 +700,16 @@ std::string EdgeEnv::LookupVariable(StringPiece var) {
   // In practice, variables defined on rules never use another rule variable.
   // For performance, only start checking for cycles after the first lookup.
   recursive_ = true;
-  std::string result = edge_->env_->LookupWithFallback(var, eval, this);
+  // Lookup order: bindings of the build statement, then the rule, then the
+  // enclosing scopes.  An edge without bindings of its own shares the scope of
+  // its file; that scope belongs to the enclosing scopes, not to the statement.
+  std::string result;
+  if (edge_->has_own_env_)
+    result = edge_->env_->LookupWithFallback(var, eval, this);
+  else if (eval)
+    result = eval->Evaluate(this);
+  else
+    result = edge_->env_->LookupVariable(var);
   if (record_varname)
     lookups_.pop_back();
   return result;
